@@ -545,9 +545,9 @@ func (c *templCtx) checkOrder(cols []colDesc, in, out *refNode, ctx map[string]i
 			if outV.kind == 'o' && (inV == nil || inV.kind == 'o' || inV.kind == 'z') {
 				c.checkOrder(col.sub, inV, outV, ctx, "sub-row "+k)
 			}
-		case outV.kind == 'o' && inV != nil && inV.kind == 'o':
-			if fmt.Sprintf("%q", dedupe(inV.keys)) != fmt.Sprintf("%q", outV.keys) && sameSet(inV.keys, outV.keys) {
-				what := fmt.Sprintf("object under column %q: member order %q became %q", k, inV.keys, outV.keys)
+		case inV != nil && (outV.kind == 'o' || outV.kind == 'a') && inV.kind == outV.kind:
+			if at, ik, ok2 := orderDiff(inV, outV, k); at != "" {
+				what := fmt.Sprintf("object under column %q: member order %q became %q", at, ik, ok2)
 				if col != nil {
 					what = "object under a declared column: " + what
 				} else {
@@ -557,6 +557,36 @@ func (c *templCtx) checkOrder(cols []colDesc, in, out *refNode, ctx map[string]i
 			}
 		}
 	}
+}
+
+// the first object, at any depth below two values of the same shape, whose members kept their names but not their order
+func orderDiff(in, out *refNode, at string) (string, []string, []string) {
+	switch {
+	case in.kind == 'o' && out.kind == 'o':
+		if len(dedupe(in.keys)) != len(in.keys) {
+			return "", nil, nil // a repeated name: which occurrence survives is not C03's matter
+		}
+		if fmt.Sprintf("%q", in.keys) != fmt.Sprintf("%q", out.keys) {
+			if sameSet(in.keys, out.keys) {
+				return at, in.keys, out.keys
+			}
+			return "", nil, nil
+		}
+		for i, k := range out.keys {
+			if iv := in.member(k); iv != nil {
+				if a, x, y := orderDiff(iv, out.kids[i], at+"."+k); a != "" {
+					return a, x, y
+				}
+			}
+		}
+	case in.kind == 'a' && out.kind == 'a' && len(in.kids) == len(out.kids):
+		for i := range in.kids {
+			if a, x, y := orderDiff(in.kids[i], out.kids[i], fmt.Sprintf("%s[%d]", at, i)); a != "" {
+				return a, x, y
+			}
+		}
+	}
+	return "", nil, nil
 }
 
 func dedupe(keys []string) []string {
@@ -1001,7 +1031,9 @@ func valuesOfType(r *rng, t string) []interface{} {
 		add(true)
 		add(false)
 	case "string":
-		for _, x := range []string{"", "x", "é", "12", "true", "<&>", "\"\\", "a\nb", " ", "2021-09-24T10:11:12Z"} {
+		// (control characters and runes Go's %q and JSON quote differently; non-BMP; U+2028; DEL)
+		for _, x := range []string{"", "x", "é", "12", "true", "<&>", "\"\\", "a\nb", " ", "2021-09-24T10:11:12Z",
+			"\a", "\v\f", "\x00\x1f", "\x7f", "\u2028\u2029", "\U0001F600", "\U000E0001", "\u00ad\ufeff", "tab\there"} {
 			add(x)
 		}
 	case "[]byte":
@@ -1130,6 +1162,9 @@ var sweepValues = []string{`null`, `true`, `false`, `0`, `1`, `-1`, `-0`, `-0.0`
 	`253402214400`, `"x"`, `""`, `"12"`, `"-7"`, `"1.5"`, `"-0.0"`, `"true"`, `"aGk="`, `"AAAAAAAAAAA="`, `"AQ=="`, `"2021-09-24"`,
 	`"2021-09-24T10:11:12Z"`, `"2021-09-24T10:11:12+05:30"`, `"2021-10-31T02:30:00.5+02:00"`, `"5138-11-16T09:46:40Z"`, `"9999-12-31T23:59:59Z"`, `"é"`, `"<&>"`}
 
+// a directed sweep: every output descriptor (format x raw type, lossless or not) x four input
+// templates x every sweep value, one column; every emitted line goes through the oracles of C01, C03,
+// C04 and (lossless descriptors) C05 — what the random cases reach only with some probability
 func (c *templCtx) fixedPointSweep() {
 	inputs := []struct {
 		name string
@@ -1139,55 +1174,44 @@ func (c *templCtx) fixedPointSweep() {
 		{"{c:datetime}", []colDesc{{name: "c", f: jsonline.DateTime}}},
 		{"{c:string}", []colDesc{{name: "c", f: jsonline.String}}},
 		{"{c:numeric}", []colDesc{{name: "c", f: jsonline.Numeric}}},
+		{"{c:auto}", []colDesc{{name: "c", f: jsonline.Auto}}},
 	}
+	values := append(append([]string{}, sweepValues...), sweepMore...)
 	for _, f := range allFormats {
-		for _, t := range losslessTypes(f) {
+		for _, t := range append([]string{""}, typeNames...) {
 			out := []colDesc{{name: "c", f: f, typName: t}}
 			to := buildTemplate(out)
-			for _, in := range inputs {
+			for ii, in := range inputs {
 				ti := buildTemplate(in.cols)
-				for _, v := range sweepValues {
+				for _, v := range values {
 					line := `{"c":` + v + `}`
-					row, err := ti.GetImporter(strings.NewReader(line)).ReadOne()
-					if err != nil {
+					var row jsonline.Row
+					var err error
+					if p, _ := guard(func() { row, err = ti.GetImporter(strings.NewReader(line)).ReadOne() }); p || err != nil || row == nil {
 						continue
 					}
 					L, err, nw, p, _ := exportOnce(to, row)
-					if err != nil || p || nw != 1 {
+					if err != nil || p {
 						continue
 					}
-					if bytes.Contains(L, []byte("\\ufffd")) {
-						continue
-					}
-					c.rep.OracleChecks["C05"]++
-					ctx := map[string]interface{}{"stream": "template", "input_template": in.name, "output_template": descString(out), "line": line,
-						"output": string(bytes.TrimSuffix(L, []byte("\n"))), "tz": os.Getenv("TZ")}
-					row2, err := to.GetImporter(bytes.NewReader(bytes.TrimSuffix(L, []byte("\n")))).ReadOne()
-					if err != nil {
-						what := fmt.Sprintf("fixed point: the emitted line is rejected by its own output template: %v", err)
-						if yearOutOfRangeLine(L) {
-							what = "year outside 0-9999: " + what
-						}
-						c.violate("C05", what, ctx)
-						continue
-					}
-					L2, err2, _, p2, _ := exportOnce(to, row2)
-					if err2 != nil || p2 {
-						c.violate("C05", fmt.Sprintf("fixed point: the emitted line cannot be re-emitted by its own output template: %v", err2), ctx)
-						continue
-					}
-					if !bytes.Equal(L, L2) {
-						what := fmt.Sprintf("fixed point: second pass gives %q", L2)
-						if yearOutOfRangeLine(L) {
-							what = "year outside 0-9999: " + what
-						}
-						c.violate("C05", what, ctx)
-					}
+					ctx := map[string]interface{}{"stream": "template", "input_template": in.name, "output_template": descString(out), "line": line, "tz": os.Getenv("TZ")}
+					save, saveL := c.enc, c.encL
+					c.enc, c.encL = map[string]bool{}, nil
+					c.judgeOutput(in.cols, out, ii == 0 || sameNames(in.cols, out), line, L, nw, ctx, to)
+					c.enc, c.encL = save, saveL
 				}
 			}
 		}
 	}
 }
+
+// more values for the sweep: numbers beyond float64, fractional / exponent timestamps, date look-alikes
+// with one-digit fields, control characters Go and JSON quote differently, arrays and objects whose
+// members are not in alphabetical order
+var sweepMore = []string{`1e400`, `-1E+999`, `1e-400`, `1632823189.5`, `1.6e9`, `0.0`, `"2021-9-4"`, `"2021-09-4"`, `"2021-9-04"`, `"21-09-24"`,
+	`"2021-09-24T10:11:12"`, `"2021-09-24 10:11:12Z"`, `"a\u0007b"`, `"\u000b"`, `"\u007f"`, `"\u0000"`, `"\ud83d\ude00"`, `"\u2028"`,
+	`[]`, `[1,"a",null]`, `{}`, `{"z":1,"a":2}`, `{"z":{"n":1,"b":[{"y":1,"x":2}]},"a":null,"m":"t"}`, `" 1"`, `"0x10"`, `"+5"`, `".5"`, `"5."`, `"007"`, `"NaN"`, `"Infinity"`,
+	`"1e400"`, `"QQ="`, `"QQ"`, `"Q Q=="`, `"////"`, `"-_-_"`}
 
 func yearOutOfRangeLine(L []byte) bool {
 	t, err := refTree(bytes.TrimSuffix(L, []byte("\n")))
@@ -1238,7 +1262,7 @@ func templateStream(seed uint64, tier string, outDir string, props map[string]bo
 	if props["C13"] || props["C17"] {
 		c.typedRoundTrips()
 	}
-	if props["C05"] {
+	if props["C05"] || props["C04"] || props["C03"] || props["C01"] {
 		c.fixedPointSweep()
 	}
 	return rep
